@@ -37,6 +37,22 @@ func (w *Worker) genHistory(r *simrt.Rand, index, maxLen int) []simapi.Visit {
 			pool = append(pool, hw[r.Intn(len(hw))])
 		}
 	}
+	if r.Intn(8) == 0 {
+		// a package of a module with a different configuration (older go
+		// directive) is analysed first: whatever the front-end derives from a
+		// package's module must not stick to the packages after it
+		var old []string
+		for _, nm := range names {
+			if strings.HasPrefix(nm, "o_") {
+				old = append(old, nm)
+			}
+		}
+		if len(old) > 0 {
+			p := old[r.Intn(len(old))]
+			vs = append(vs, simapi.Visit{Pkg: p, Files: w.index.AllFiles(p)})
+			n++
+		}
+	}
 	for len(vs) < n {
 		p := pool[r.Intn(len(pool))]
 		files := w.index.AllFiles(p)
@@ -91,7 +107,13 @@ func (w *Worker) genC03(rc *simapi.RunConfig) {
 		maxLen = 40
 	}
 	rc.Visits = w.genHistory(r, rc.Index, maxLen)
-	wl := w.genWorkload(r, visitPkgs(rc.Visits), rc.Index%7 == 0)
+	allowAll := rc.Index%7 == 0
+	for _, p := range visitPkgs(rc.Visits) {
+		if isInterplay(p) && rc.Index%2 == 0 {
+			allowAll = true // the interplay packages are there for many checkers at once
+		}
+	}
+	wl := w.genWorkload(r, visitPkgs(rc.Visits), allowAll)
 	rc.Args = wl.Args()
 	sr := simrt.NewRand(rc.RunSeed, "sched")
 	v := genVariant(sr, rc.Index%2 == 0) // serial in half of the runs
